@@ -30,3 +30,32 @@ def labels_describe_blocks(mp, sites, verbose=True):
                     print("site %d entry (%d,%d,%d) = %g violates %s + %s = %s" % (i, l, p, r, a[l, p, r], L[i][l], sig[p], L[i + 1][r]))
                 bad = 1
     return bad
+
+
+def tree_labels_describe_blocks(ttns, verbose=True):
+    """tree twin of ttns_validb: every entry above 1e-12*max of every node tensor satisfies
+    sum_i qn_child_i[k_i] + sum_j sigma_j(ph_j) = qn_node[p]; the root bond has dimension 1"""
+    bad = 0
+    for node in ttns.node_list:
+        t = np.abs(np.asarray(node.tensor))
+        nc = len(node.children)
+        bs = ttns.tn2bn[node].basis_sets
+        q = np.asarray(node.qn).reshape(len(node.qn), -1)
+        if len(q) != t.shape[-1]:
+            if verbose:
+                print("label list length does not match the parent bond dimension", t.shape, len(q))
+            return 1
+        thr = 1e-12 * max(t.max(), 1e-300)
+        for idx in np.argwhere(t > thr):
+            tot = 0
+            for i in range(nc):
+                tot = tot + np.asarray(node.children[i].qn).reshape(len(node.children[i].qn), -1)[idx[i]]
+            for j, b in enumerate(bs):
+                tot = tot + np.asarray(b.sigmaqn).reshape(b.nbas, -1)[idx[nc + j]]
+            if np.any(np.asarray(tot).reshape(-1) != q[idx[-1]]):
+                if verbose and not bad:
+                    print("node entry", idx.tolist(), "violates the label equation:", np.asarray(tot).reshape(-1), "!=", q[idx[-1]])
+                bad = 1
+    if ttns.root.tensor.shape[-1] != 1:
+        bad = 1
+    return bad
